@@ -1,7 +1,8 @@
 //! C15: the real `zksync_concurrency::limiter::Limiter` under `ctx::ManualClock`, driven by a script.
 //!
 //! input: {"burst":"..","refresh":"<ns, signed>","start":"<ns>",
-//!         "ops":[["acq","<permits>","fut"|"ctx"],["cancel",k],["drop",k],["adv","<ns>"]]}
+//!         "ops":[["acq","<permits>","fut"|"ctx"],["cancel",k],["drop",k],["adv","<ns>"],["advx","<ns>"]]}
+//! "advx" advances the clock without polling anything before the next op (the woken waiter oversleeps).
 //! `k` is the index of the k-th "acq" op.  "fut" acquires are cancelled by dropping the future,
 //! "ctx" acquires by cancelling their context (a child context whose parent lives on a private
 //! manual clock; advancing that clock past the parent's deadline cancels it without touching
@@ -135,10 +136,14 @@ async fn run_case(c: &Value) -> Value {
                     events.push(json!([1, k, now_ns(&clock).to_string()]));
                 }
             }
-            "adv" => {
+            "adv" | "advx" => {
                 clock.advance(dur(i128_of(&o[1])));
             }
             x => panic!("bad op {x}"),
+        }
+        // "advx": the clock moved but nobody is polled before the next op (late wake-up of the sleeper)
+        if o[0].as_str() == Some("advx") {
+            continue;
         }
         // drive to quiescence (bounded: a future that keeps waking itself is reported, not awaited)
         let mut idle_rounds = 0;
